@@ -19,8 +19,9 @@ Definition rres_eqb (a b : rres) : bool :=
 Definition obs_eqb (a b : obs) : bool :=
   match a, b with
   | BRes x, BRes y => rres_eqb x y
-  | BCkpt s1 k1, BCkpt s2 k2 => listN_eqb s1 s2 && Bool.eqb k1 k2
+  | BCkpt s1 k1 r1, BCkpt s2 k2 r2 => listN_eqb s1 s2 && Bool.eqb k1 k2 && Bool.eqb r1 r2
   | BLoad k1, BLoad k2 => Bool.eqb k1 k2
+  | BSave s1, BSave s2 => listN_eqb s1 s2
   | _, _ => false
   end.
 
